@@ -73,6 +73,15 @@ def bounded_fd(pack):
             bad = {'case': row[0], 'observed': 'd(%s)/d(%s) is missing from the assembled matrices (%d such entries)' % (row[1], row[2], len(FD.seen_known))}
     if bad:
         pack.violation(name, {'bounded': True, 'inputs': bad, 'native_cmd': 'contracts/bounded_jacobian_fd.py'})
+    # the Jacobian functions receive live values (time, variables, flags), not snapshots taken when the argument lists were built
+    from contracts import C02_binding
+    name3 = 'C03/andes/core/model/model.py:Model.refresh_inputs_arg/bounded:Jacobian-argument-lists-hold-the-live-objects-of-the-name-table'
+    r = native_guard(pack, name3, C02_binding.replay_inputs_arg)
+    if r is not None:
+        pack.bounded.append({'function': 'Model.refresh_inputs_arg (all models of two stock cases after TDS.init)', 'entries': r.get('tried', 0), 'counted_as_proved': False,
+                             'kind': 'bounded native: object identity of every argument with the name table'})
+        if r.get('confirmed'):
+            pack.violation(name3, {'bounded': True, 'inputs': r.get('inputs'), 'observed': r.get('observed'), 'native_cmd': r.get('native_cmd')})
     # "the matrices handed to the Newton solvers": the time-domain iteration matrix built from these blocks
     from contracts import bounded_itm_matrix as BIM
     name2 = 'C03/andes/routines/daeint.py:calc_jac/bounded:the-matrix-handed-to-the-time-domain-Newton-solver-is-the-derivative-of-its-residual(both-methods)'
